@@ -51,6 +51,12 @@ def corner_scenarios(chk: Check) -> list[dict]:
     # completes with status 0 its report must still be consistent
     add("C15-write-error", {"a.py": src, "b.py": src, "c.py": src}, ["--codemod-include", "pixee:python/use-set-literal,pixee:python/fix-assert-tuple"],
         what="write error on one rewritten file", inject={"raise_in_write": {"f": "b.py"}}, only_if_completed=True)
+    # line filters on a statement that spans several lines (every line, as exclude and as include)
+    multi = "import requests\nrequests.get(\n    \"https://example.com\",\n    verify=False,\n)\nx = set([1, 2])\n"
+    for n in range(1, 7):
+        for opt in ("--path-exclude", "--path-include"):
+            add(f"C15-lines-{opt[7:]}-{n}", {"app.py": multi}, ["--codemod-include", "pixee:python/requests-verify,pixee:python/use-set-literal", opt, f"app.py:{n}"],
+                what=f"{opt} app.py:{n} on a multi-line statement")
     add("C15-dry", {"a.py": src}, ["--codemod-include", "pixee:python/use-set-literal", "--dry-run"], what="dry run")
     add("C15-default-exclude-mode", {"a.py": src}, ["--codemod-exclude", "pixee:python/*"], what="everything excluded")
     # SAST runs with the repository's own seed findings, one per tool (more in thorough)
